@@ -93,6 +93,11 @@ def run(repo: Repo, tier: str, res: CheckResult, seed: int = 0) -> None:
                             "built for the first recipe, so its links/constants/coercers are silently ignored ("
                             + f.message[:160] + ")", f.line))
     _shared_cache_rule(repo, res)
+    coercer_data_truthiness(repo, res)
+    # memos of the planning stage (the hidden-memo family of C11 over conversion/): a coercer remembered per TYPE pair serves
+    # fields whose location-bound recipe entries differ
+    from .. import memo
+    memo.check(repo, res, "C13", only=("/conversion/",), floors=False)
     corroborated = bool(res.findings)
     for f in sub.findings:
         if corroborated or f.rule in S_ONLY_RULES:
@@ -569,3 +574,32 @@ def _shared_cache_rule(repo: Repo, res: CheckResult) -> None:
         if "conversion/" in f.file:
             res.add(Finding("C13", "FACADE.converter-cache-shared-with-clones", f.file, f.qualname, f.construct,
                             "a converter cache shared between a conversion retort and its clones makes get_converter answer with a converter built under another recipe: " + f.message[:200], f.line))
+
+
+def coercer_data_truthiness(repo: Repo, res: CheckResult) -> None:
+    """A runtime coercer closure `f(data, ctx)` may test its datum for None (Optional) but never for truth: [] / {} / 0 / an
+    object with a false __bool__ are values, `x if data else None` turns them into None without any error."""
+    m = repo.mod("conversion/coercer_provider")
+    n = 0
+    for fn in [f for f in ast.walk(m.tree) if isinstance(f, ast.FunctionDef) and m.enclosing_function(f) is not None]:
+        ps = func_params(fn)
+        if len(ps) < 2 or ps[1] != "ctx":
+            continue
+        d = ps[0]
+        n += 1
+        res.evaluated(f"truthiness:{m.qualname(fn)}", True)
+        for t in walk_no_nested(fn, include_root=False):
+            tests: List[ast.expr] = []
+            if isinstance(t, (ast.If, ast.While, ast.IfExp)):
+                tests.append(t.test)
+            elif isinstance(t, ast.BoolOp):
+                tests += t.values
+            for e in tests:
+                if isinstance(e, ast.UnaryOp) and isinstance(e.op, ast.Not):
+                    e = e.operand
+                if isinstance(e, ast.Name) and e.id == d:
+                    res.add(Finding("C13", "COERCER.datum-tested-for-truth", m.rel, m.qualname(fn), norm(t)[:100].split("\n")[0],
+                                    f"the coercer tests `{d}` for truth: falsy values that are not None ([], {{}}, 0, '', an object with a "
+                                    "false __bool__ / __len__) take the None branch -- Optional[List[X]] -> Optional[List[Y]] returns None "
+                                    "for an empty list", getattr(t, "lineno", 0)))
+    res.count("COERCER.runtime-closures", n, 3)
